@@ -917,6 +917,10 @@ package ircserver
 //@ pred modesRepr(p *pb.Snapshot_Session, s *Session) = forall m int :: 0 <= m && m < 122 ==> (s.modes[m] <==> (exists j int :: 0 <= j && j < len(p.Modes) && p.Modes[j][0] == m))
 // Channel memberships and invitations: the wire form lists names, the state keeps the lowered names as a set.
 //@ pred chansRepr(p *pb.Snapshot_Session, s *Session) = s.Channels != nil && s.invitedTo != nil && (forall ch lcChan :: ch in s.Channels <==> (exists j int :: 0 <= j && j < len(p.Channels) && ChanToLower(p.Channels[j]) == ch)) && (forall ch lcChan :: ch in s.invitedTo <==> (exists j int :: 0 <= j && j < len(p.InvitedTo) && ChanToLower(p.InvitedTo[j]) == ch))
+// The two halves of chansRepr, stated separately for the writer (each half is its own proof group):
+// every listed name is a key of the set / every key of the set is listed.
+//@ pred setsSound(p *pb.Snapshot_Session, s *Session) = allocated(p.Channels) && allocated(p.InvitedTo) && (forall j int :: 0 <= j && j < len(p.Channels) ==> ChanToLower(p.Channels[j]) in s.Channels) && (forall j int :: 0 <= j && j < len(p.InvitedTo) ==> ChanToLower(p.InvitedTo[j]) in s.invitedTo)
+//@ pred setsComplete(p *pb.Snapshot_Session, s *Session) = allocated(p.Channels) && allocated(p.InvitedTo) && (forall ch lcChan :: ch in s.Channels ==> (exists j int :: 0 <= j && j < len(p.Channels) && ChanToLower(p.Channels[j]) == ch)) && (forall ch lcChan :: ch in s.invitedTo ==> (exists j int :: 0 <= j && j < len(p.InvitedTo) && ChanToLower(p.InvitedTo[j]) == ch))
 //@ pred snapId(p *pb.Snapshot_Session) = mk("robust.Id", p.Id.Id, p.Id.Reply)
 //@ pred modesOK(p *pb.Snapshot_Session) = allocated(p.Modes) && forall j int :: 0 <= j && j < len(p.Modes) ==> len(p.Modes[j]) > 0 && p.Modes[j][0] < 122
 //@ pred sessEntryOK(p *pb.Snapshot_Session, i *IRCServer) = modesOK(p) && p != nil && allocated(p) && p.Id != nil && p.IrcPrefix != nil && allocated(p.Id) && allocated(p.IrcPrefix) && allocated(p.LastActivity) && allocated(p.LastNonPing) && allocated(p.LastSolvedCaptcha) && snapId(p) in i.sessions && sessRepr(p, i.sessions[snapId(p)]) && modesRepr(p, i.sessions[snapId(p)])
@@ -960,26 +964,39 @@ package ircserver
 // the channel table is well-formed (chanShape: keys are the lowered names, member maps and ban lists exist), member keys are lowered nicknames
 //@   requires only-chanwc-shape: chanShape(i)
 //@   requires only-chanw-shape: chanShape(i) && (forall ch lcChan, n lcNick :: ch in i.channels && n in i.channels[ch].nicks ==> i.channels[ch].nicks[n] != nil && NickToLower(n) == n) && (forall ch lcChan, m int :: ch in i.channels && 0 <= m && m < 65 ==> !i.channels[ch].modes[m])
+// keys of the membership and invitation sets are lowered names (they are only ever inserted as ChanToLower(...))
+//@   requires only-setw-canonical: forall x robust.Id, ch lcChan :: x in i.sessions && (ch in i.sessions[x].Channels || ch in i.sessions[x].invitedTo) ==> ChanToLower(ch) == ch
+//@   requires only-setwc-canonical: forall x robust.Id, ch lcChan :: x in i.sessions && (ch in i.sessions[x].Channels || ch in i.sessions[x].invitedTo) ==> ChanToLower(ch) == ch
 //@   requires legacy-created: forall x robust.Id :: x in i.sessions ==> i.sessions[x].Created > 0 && !i.sessions[x].LastNonPing.IsZero()
 // user modes are letters: nothing below 'A' is ever set (cmdMode only sets parsed mode letters)
 //@   requires modes-letters: forall x robust.Id, m int :: x in i.sessions && 0 <= m && m < 65 ==> !i.sessions[x].modes[m]
+//@   assert@call append#3 : setw-built: callarg1[0] != nil && callarg1[0].Id != nil && snapId(callarg1[0]) == id && session == i.sessions[id] && setsSound(callarg1[0], session)
+//@   assert@call append#3 : setwc-built: callarg1[0] != nil && callarg1[0].Id != nil && snapId(callarg1[0]) == id && session == i.sessions[id] && setsComplete(callarg1[0], session)
 //@   assert@call append#3 : sess-built: callarg1[0] != nil && callarg1[0].Id != nil && callarg1[0].IrcPrefix != nil && snapId(callarg1[0]) == id && session == i.sessions[id] && sessRepr(callarg1[0], session) && modesOK(callarg1[0]) && modesRepr(callarg1[0], session)
 //@   assert@call append#3 : sess-kept: forall k int :: 0 <= k && k < len(sessions) ==> sessEntryOK(sessions[k], i) && snapId(sessions[k]) != id
 //@   loop range i.sessions
+//@     invariant setw: (forall k int :: 0 <= k && k < len(sessions) ==> sessions[k] != nil && allocated(sessions[k]) && sessions[k].Id != nil && allocated(sessions[k].Id) && setsSound(sessions[k], i.sessions[snapId(sessions[k])]))
+//@     invariant setwc: (forall k int :: 0 <= k && k < len(sessions) ==> sessions[k] != nil && allocated(sessions[k]) && sessions[k].Id != nil && allocated(sessions[k].Id) && setsComplete(sessions[k], i.sessions[snapId(sessions[k])]))
 //@     invariant sess-l0: forall k int :: 0 <= k && k < len(sessions) ==> sessEntryOK(sessions[k], i) && seen(snapId(sessions[k]))
 //@     invariant sess-l1: forall x robust.Id :: seen(x) ==> (exists k int :: 0 <= k && k < len(sessions) && snapId(sessions[k]) == x)
 //@     invariant sess-l2: forall a int, b int {sessions[a], sessions[b]} :: 0 <= a && a < b && b < len(sessions) ==> snapId(sessions[a]) != snapId(sessions[b])
 //@   loop range session.Channels
+//@     invariant setw: (forall k int :: 0 <= k && k < len(sessions) ==> sessions[k] != nil && allocated(sessions[k]) && sessions[k].Id != nil && allocated(sessions[k].Id) && setsSound(sessions[k], i.sessions[snapId(sessions[k])])) && allocated(channels) && (forall j int :: 0 <= j && j < len(channels) ==> seen(channels[j])) && (forall ch lcChan :: seen(ch) ==> ch in session.Channels)
+//@     invariant setwc: (forall k int :: 0 <= k && k < len(sessions) ==> sessions[k] != nil && allocated(sessions[k]) && sessions[k].Id != nil && allocated(sessions[k].Id) && setsComplete(sessions[k], i.sessions[snapId(sessions[k])])) && allocated(channels) && (forall ch lcChan :: seen(ch) ==> (exists j int :: 0 <= j && j < len(channels) && channels[j] == ch))
 //@     invariant sess-l3: id in i.sessions && session == i.sessions[id] && session != nil
 //@     invariant sess-l4: forall k int :: 0 <= k && k < len(sessions) ==> sessEntryOK(sessions[k], i) && snapId(sessions[k]) != id && seen(snapId(sessions[k]), "range i.sessions")
 //@     invariant sess-l5: forall x robust.Id :: seen(x, "range i.sessions") && x != id ==> (exists k int :: 0 <= k && k < len(sessions) && snapId(sessions[k]) == x)
 //@     invariant sess-l6: forall a int, b int {sessions[a], sessions[b]} :: 0 <= a && a < b && b < len(sessions) ==> snapId(sessions[a]) != snapId(sessions[b])
 //@   loop range session.invitedTo
+//@     invariant setw: (forall k int :: 0 <= k && k < len(sessions) ==> sessions[k] != nil && allocated(sessions[k]) && sessions[k].Id != nil && allocated(sessions[k].Id) && setsSound(sessions[k], i.sessions[snapId(sessions[k])])) && allocated(channels) && (forall j int :: 0 <= j && j < len(channels) ==> channels[j] in session.Channels) && allocated(invitedTo) && !samearray(invitedTo, channels) && (forall j int :: 0 <= j && j < len(invitedTo) ==> seen(invitedTo[j])) && (forall ch lcChan :: seen(ch) ==> ch in session.invitedTo)
+//@     invariant setwc: (forall k int :: 0 <= k && k < len(sessions) ==> sessions[k] != nil && allocated(sessions[k]) && sessions[k].Id != nil && allocated(sessions[k].Id) && setsComplete(sessions[k], i.sessions[snapId(sessions[k])])) && allocated(channels) && (forall ch lcChan :: ch in session.Channels ==> (exists j int :: 0 <= j && j < len(channels) && channels[j] == ch)) && allocated(invitedTo) && !samearray(invitedTo, channels) && (forall ch lcChan :: seen(ch) ==> (exists j int :: 0 <= j && j < len(invitedTo) && invitedTo[j] == ch))
 //@     invariant sess-l7: id in i.sessions && session == i.sessions[id] && session != nil
 //@     invariant sess-l8: forall k int :: 0 <= k && k < len(sessions) ==> sessEntryOK(sessions[k], i) && snapId(sessions[k]) != id && seen(snapId(sessions[k]), "range i.sessions")
 //@     invariant sess-l9: forall x robust.Id :: seen(x, "range i.sessions") && x != id ==> (exists k int :: 0 <= k && k < len(sessions) && snapId(sessions[k]) == x)
 //@     invariant sess-l10: forall a int, b int {sessions[a], sessions[b]} :: 0 <= a && a < b && b < len(sessions) ==> snapId(sessions[a]) != snapId(sessions[b])
 //@   loop for mode < 'z'
+//@     invariant setw: (forall k int :: 0 <= k && k < len(sessions) ==> sessions[k] != nil && allocated(sessions[k]) && sessions[k].Id != nil && allocated(sessions[k].Id) && setsSound(sessions[k], i.sessions[snapId(sessions[k])])) && allocated(channels) && (forall j int :: 0 <= j && j < len(channels) ==> channels[j] in session.Channels) && allocated(invitedTo) && !samearray(invitedTo, channels) && (forall j int :: 0 <= j && j < len(invitedTo) ==> invitedTo[j] in session.invitedTo) && allocated(modes) && !samearray(modes, channels) && !samearray(modes, invitedTo)
+//@     invariant setwc: (forall k int :: 0 <= k && k < len(sessions) ==> sessions[k] != nil && allocated(sessions[k]) && sessions[k].Id != nil && allocated(sessions[k].Id) && setsComplete(sessions[k], i.sessions[snapId(sessions[k])])) && allocated(channels) && (forall ch lcChan :: ch in session.Channels ==> (exists j int :: 0 <= j && j < len(channels) && channels[j] == ch)) && allocated(invitedTo) && !samearray(invitedTo, channels) && (forall ch lcChan :: ch in session.invitedTo ==> (exists j int :: 0 <= j && j < len(invitedTo) && invitedTo[j] == ch)) && allocated(modes) && !samearray(modes, channels) && !samearray(modes, invitedTo)
 //@     invariant sess-l11: forall j int :: 0 <= j && j < len(modes) ==> len(modes[j]) > 0 && modes[j][0] < 122
 //@     invariant sess-l12: 65 <= mode && mode <= 122 && (forall j int :: 0 <= j && j < len(modes) ==> 65 <= modes[j][0] && modes[j][0] < mode && session.modes[modes[j][0]])
 //@     invariant sess-l12b: forall m int :: 65 <= m && m < mode && session.modes[m] ==> (exists j int :: 0 <= j && j < len(modes) && modes[j][0] == m)
@@ -989,6 +1006,8 @@ package ircserver
 //@     invariant sess-l16: forall a int, b int {sessions[a], sessions[b]} :: 0 <= a && a < b && b < len(sessions) ==> snapId(sessions[a]) != snapId(sessions[b])
 // the loops after the session loop leave the session list alone
 //@   loop range i.channels
+//@     invariant setw: (forall k int :: 0 <= k && k < len(sessions) ==> sessions[k] != nil && allocated(sessions[k]) && sessions[k].Id != nil && allocated(sessions[k].Id) && setsSound(sessions[k], i.sessions[snapId(sessions[k])]))
+//@     invariant setwc: (forall k int :: 0 <= k && k < len(sessions) ==> sessions[k] != nil && allocated(sessions[k]) && sessions[k].Id != nil && allocated(sessions[k].Id) && setsComplete(sessions[k], i.sessions[snapId(sessions[k])]))
 //@     invariant chanwc: (forall k int :: 0 <= k && k < len(channels) ==> channels[k] != nil && allocated(channels[k])) && forall ch lcChan :: seen(ch) ==> (exists k int :: 0 <= k && k < len(channels) && chanKey(channels[k]) == ch)
 //@     invariant chanw: forall k int :: 0 <= k && k < len(channels) ==> chanEntryOK(channels[k], i) && seen(chanKey(channels[k]))
 //@     invariant chanw-distinct: forall a int, b int {channels[a], channels[b]} :: 0 <= a && a < b && b < len(channels) ==> chanKey(channels[a]) != chanKey(channels[b])
@@ -996,6 +1015,8 @@ package ircserver
 //@     invariant sess-l18: forall x robust.Id :: x in i.sessions ==> (exists k int :: 0 <= k && k < len(sessions) && snapId(sessions[k]) == x)
 //@     invariant sess-l19: forall a int, b int {sessions[a], sessions[b]} :: 0 <= a && a < b && b < len(sessions) ==> snapId(sessions[a]) != snapId(sessions[b])
 //@   loop range channel.nicks
+//@     invariant setw: (forall k int :: 0 <= k && k < len(sessions) ==> sessions[k] != nil && allocated(sessions[k]) && sessions[k].Id != nil && allocated(sessions[k].Id) && setsSound(sessions[k], i.sessions[snapId(sessions[k])]))
+//@     invariant setwc: (forall k int :: 0 <= k && k < len(sessions) ==> sessions[k] != nil && allocated(sessions[k]) && sessions[k].Id != nil && allocated(sessions[k].Id) && setsComplete(sessions[k], i.sessions[snapId(sessions[k])]))
 //@     invariant chanwc: channel != nil && seen(ChanToLower(channel.name), "range i.channels") && (forall k int :: 0 <= k && k < len(channels) ==> channels[k] != nil && allocated(channels[k])) && forall ch lcChan :: seen(ch, "range i.channels") && ch != ChanToLower(channel.name) ==> (exists k int :: 0 <= k && k < len(channels) && chanKey(channels[k]) == ch)
 //@     invariant chanw: channel != nil && ChanToLower(channel.name) in i.channels && i.channels[ChanToLower(channel.name)] == channel && seen(ChanToLower(channel.name), "range i.channels") && (forall k int :: 0 <= k && k < len(channels) ==> chanEntryOK(channels[k], i) && seen(chanKey(channels[k]), "range i.channels") && chanKey(channels[k]) != ChanToLower(channel.name))
 //@     invariant chanw-distinct: forall a int, b int {channels[a], channels[b]} :: 0 <= a && a < b && b < len(channels) ==> chanKey(channels[a]) != chanKey(channels[b])
@@ -1004,6 +1025,8 @@ package ircserver
 //@     invariant sess-l21: forall x robust.Id :: x in i.sessions ==> (exists k int :: 0 <= k && k < len(sessions) && snapId(sessions[k]) == x)
 //@     invariant sess-l22: forall a int, b int {sessions[a], sessions[b]} :: 0 <= a && a < b && b < len(sessions) ==> snapId(sessions[a]) != snapId(sessions[b])
 //@   loop range channelNickModes
+//@     invariant setw: (forall k int :: 0 <= k && k < len(sessions) ==> sessions[k] != nil && allocated(sessions[k]) && sessions[k].Id != nil && allocated(sessions[k].Id) && setsSound(sessions[k], i.sessions[snapId(sessions[k])]))
+//@     invariant setwc: (forall k int :: 0 <= k && k < len(sessions) ==> sessions[k] != nil && allocated(sessions[k]) && sessions[k].Id != nil && allocated(sessions[k].Id) && setsComplete(sessions[k], i.sessions[snapId(sessions[k])]))
 //@     invariant chanwc: channel != nil && seen(ChanToLower(channel.name), "range i.channels") && (forall k int :: 0 <= k && k < len(channels) ==> channels[k] != nil && allocated(channels[k])) && forall ch lcChan :: seen(ch, "range i.channels") && ch != ChanToLower(channel.name) ==> (exists k int :: 0 <= k && k < len(channels) && chanKey(channels[k]) == ch)
 //@     invariant chanw: channel != nil && ChanToLower(channel.name) in i.channels && i.channels[ChanToLower(channel.name)] == channel && seen(ChanToLower(channel.name), "range i.channels") && (forall k int :: 0 <= k && k < len(channels) ==> chanEntryOK(channels[k], i) && seen(chanKey(channels[k]), "range i.channels") && chanKey(channels[k]) != ChanToLower(channel.name))
 //@     invariant chanw-distinct: forall a int, b int {channels[a], channels[b]} :: 0 <= a && a < b && b < len(channels) ==> chanKey(channels[a]) != chanKey(channels[b])
@@ -1014,6 +1037,8 @@ package ircserver
 //@     invariant sess-l24: forall x robust.Id :: x in i.sessions ==> (exists k int :: 0 <= k && k < len(sessions) && snapId(sessions[k]) == x)
 //@     invariant sess-l25: forall a int, b int {sessions[a], sessions[b]} :: 0 <= a && a < b && b < len(sessions) ==> snapId(sessions[a]) != snapId(sessions[b])
 //@   loop for mode < 'z' #1
+//@     invariant setw: (forall k int :: 0 <= k && k < len(sessions) ==> sessions[k] != nil && allocated(sessions[k]) && sessions[k].Id != nil && allocated(sessions[k].Id) && setsSound(sessions[k], i.sessions[snapId(sessions[k])]))
+//@     invariant setwc: (forall k int :: 0 <= k && k < len(sessions) ==> sessions[k] != nil && allocated(sessions[k]) && sessions[k].Id != nil && allocated(sessions[k].Id) && setsComplete(sessions[k], i.sessions[snapId(sessions[k])]))
 //@     invariant chanwc: channel != nil && seen(ChanToLower(channel.name), "range i.channels") && (forall k int :: 0 <= k && k < len(channels) ==> channels[k] != nil && allocated(channels[k])) && forall ch lcChan :: seen(ch, "range i.channels") && ch != ChanToLower(channel.name) ==> (exists k int :: 0 <= k && k < len(channels) && chanKey(channels[k]) == ch)
 //@     invariant chanw: channel != nil && ChanToLower(channel.name) in i.channels && i.channels[ChanToLower(channel.name)] == channel && seen(ChanToLower(channel.name), "range i.channels") && (forall k int :: 0 <= k && k < len(channels) ==> chanEntryOK(channels[k], i) && seen(chanKey(channels[k]), "range i.channels") && chanKey(channels[k]) != ChanToLower(channel.name))
 //@     invariant chanw-distinct: forall a int, b int {channels[a], channels[b]} :: 0 <= a && a < b && b < len(channels) ==> chanKey(channels[a]) != chanKey(channels[b])
@@ -1024,6 +1049,8 @@ package ircserver
 //@     invariant sess-l27: forall x robust.Id :: x in i.sessions ==> (exists k int :: 0 <= k && k < len(sessions) && snapId(sessions[k]) == x)
 //@     invariant sess-l28: forall a int, b int {sessions[a], sessions[b]} :: 0 <= a && a < b && b < len(sessions) ==> snapId(sessions[a]) != snapId(sessions[b])
 //@   loop range channel.bans
+//@     invariant setw: (forall k int :: 0 <= k && k < len(sessions) ==> sessions[k] != nil && allocated(sessions[k]) && sessions[k].Id != nil && allocated(sessions[k].Id) && setsSound(sessions[k], i.sessions[snapId(sessions[k])]))
+//@     invariant setwc: (forall k int :: 0 <= k && k < len(sessions) ==> sessions[k] != nil && allocated(sessions[k]) && sessions[k].Id != nil && allocated(sessions[k].Id) && setsComplete(sessions[k], i.sessions[snapId(sessions[k])]))
 //@     invariant chanwc: channel != nil && seen(ChanToLower(channel.name), "range i.channels") && (forall k int :: 0 <= k && k < len(channels) ==> channels[k] != nil && allocated(channels[k])) && forall ch lcChan :: seen(ch, "range i.channels") && ch != ChanToLower(channel.name) ==> (exists k int :: 0 <= k && k < len(channels) && chanKey(channels[k]) == ch)
 //@     invariant chanw: channel != nil && ChanToLower(channel.name) in i.channels && i.channels[ChanToLower(channel.name)] == channel && seen(ChanToLower(channel.name), "range i.channels") && (forall k int :: 0 <= k && k < len(channels) ==> chanEntryOK(channels[k], i) && seen(chanKey(channels[k]), "range i.channels") && chanKey(channels[k]) != ChanToLower(channel.name))
 //@     invariant chanw-distinct: forall a int, b int {channels[a], channels[b]} :: 0 <= a && a < b && b < len(channels) ==> chanKey(channels[a]) != chanKey(channels[b])
@@ -1034,6 +1061,8 @@ package ircserver
 //@     invariant sess-l30: forall x robust.Id :: x in i.sessions ==> (exists k int :: 0 <= k && k < len(sessions) && snapId(sessions[k]) == x)
 //@     invariant sess-l31: forall a int, b int {sessions[a], sessions[b]} :: 0 <= a && a < b && b < len(sessions) ==> snapId(sessions[a]) != snapId(sessions[b])
 //@   loop range i.svsholds
+//@     invariant setw: (forall k int :: 0 <= k && k < len(sessions) ==> sessions[k] != nil && allocated(sessions[k]) && sessions[k].Id != nil && allocated(sessions[k].Id) && setsSound(sessions[k], i.sessions[snapId(sessions[k])]))
+//@     invariant setwc: (forall k int :: 0 <= k && k < len(sessions) ==> sessions[k] != nil && allocated(sessions[k]) && sessions[k].Id != nil && allocated(sessions[k].Id) && setsComplete(sessions[k], i.sessions[snapId(sessions[k])]))
 //@     invariant chanwc: (forall k int :: 0 <= k && k < len(channels) ==> channels[k] != nil && allocated(channels[k])) && forall ch lcChan :: ch in i.channels ==> (exists k int :: 0 <= k && k < len(channels) && chanKey(channels[k]) == ch)
 //@     invariant chanw: forall k int :: 0 <= k && k < len(channels) ==> chanEntryOK(channels[k], i)
 //@     invariant chanw-distinct: forall a int, b int {channels[a], channels[b]} :: 0 <= a && a < b && b < len(channels) ==> chanKey(channels[a]) != chanKey(channels[b])
@@ -1042,6 +1071,8 @@ package ircserver
 //@     invariant sess-l33: forall x robust.Id :: x in i.sessions ==> (exists k int :: 0 <= k && k < len(sessions) && snapId(sessions[k]) == x)
 //@     invariant sess-l34: forall a int, b int {sessions[a], sessions[b]} :: 0 <= a && a < b && b < len(sessions) ==> snapId(sessions[a]) != snapId(sessions[b])
 //@   loop range i.Config.IRC.Operators
+//@     invariant setw: (forall k int :: 0 <= k && k < len(sessions) ==> sessions[k] != nil && allocated(sessions[k]) && sessions[k].Id != nil && allocated(sessions[k].Id) && setsSound(sessions[k], i.sessions[snapId(sessions[k])]))
+//@     invariant setwc: (forall k int :: 0 <= k && k < len(sessions) ==> sessions[k] != nil && allocated(sessions[k]) && sessions[k].Id != nil && allocated(sessions[k].Id) && setsComplete(sessions[k], i.sessions[snapId(sessions[k])]))
 //@     invariant chanwc: (forall k int :: 0 <= k && k < len(channels) ==> channels[k] != nil && allocated(channels[k])) && forall ch lcChan :: ch in i.channels ==> (exists k int :: 0 <= k && k < len(channels) && chanKey(channels[k]) == ch)
 //@     invariant chanw: forall k int :: 0 <= k && k < len(channels) ==> chanEntryOK(channels[k], i)
 //@     invariant chanw-distinct: forall a int, b int {channels[a], channels[b]} :: 0 <= a && a < b && b < len(channels) ==> chanKey(channels[a]) != chanKey(channels[b])
@@ -1049,6 +1080,8 @@ package ircserver
 //@     invariant sess-l36: forall x robust.Id :: x in i.sessions ==> (exists k int :: 0 <= k && k < len(sessions) && snapId(sessions[k]) == x)
 //@     invariant sess-l37: forall a int, b int {sessions[a], sessions[b]} :: 0 <= a && a < b && b < len(sessions) ==> snapId(sessions[a]) != snapId(sessions[b])
 //@   loop range i.Config.IRC.Services
+//@     invariant setw: (forall k int :: 0 <= k && k < len(sessions) ==> sessions[k] != nil && allocated(sessions[k]) && sessions[k].Id != nil && allocated(sessions[k].Id) && setsSound(sessions[k], i.sessions[snapId(sessions[k])]))
+//@     invariant setwc: (forall k int :: 0 <= k && k < len(sessions) ==> sessions[k] != nil && allocated(sessions[k]) && sessions[k].Id != nil && allocated(sessions[k].Id) && setsComplete(sessions[k], i.sessions[snapId(sessions[k])]))
 //@     invariant chanwc: (forall k int :: 0 <= k && k < len(channels) ==> channels[k] != nil && allocated(channels[k])) && forall ch lcChan :: ch in i.channels ==> (exists k int :: 0 <= k && k < len(channels) && chanKey(channels[k]) == ch)
 //@     invariant chanw: forall k int :: 0 <= k && k < len(channels) ==> chanEntryOK(channels[k], i)
 //@     invariant chanw-distinct: forall a int, b int {channels[a], channels[b]} :: 0 <= a && a < b && b < len(channels) ==> chanKey(channels[a]) != chanKey(channels[b])
@@ -1071,6 +1104,8 @@ package ircserver
 //@   assert@call proto.Marshal#0 : sess-sessions-repr: forall k int :: 0 <= k && k < len(sessions) ==> sessEntryOK(sessions[k], i)
 //@   assert@call proto.Marshal#0 : chanwc: forall ch lcChan :: ch in i.channels ==> (exists k int :: 0 <= k && k < len(channels) && chanKey(channels[k]) == ch)
 //@   assert@call proto.Marshal#0 : chanw: sameslice(snapshot.Channels, channels) && (forall k int :: 0 <= k && k < len(channels) ==> chanEntryOK(channels[k], i)) && wfSnapChannels(addrof(snapshot))
+//@   assert@call proto.Marshal#0 : setw: (forall k int :: 0 <= k && k < len(sessions) ==> sessions[k] != nil && allocated(sessions[k]) && sessions[k].Id != nil && allocated(sessions[k].Id) && setsSound(sessions[k], i.sessions[snapId(sessions[k])]))
+//@   assert@call proto.Marshal#0 : setwc: (forall k int :: 0 <= k && k < len(sessions) ==> sessions[k] != nil && allocated(sessions[k]) && sessions[k].Id != nil && allocated(sessions[k].Id) && setsComplete(sessions[k], i.sessions[snapId(sessions[k])]))
 //@   assert@call proto.Marshal#0 : holds: snapshot.Svsholds == svsholds && holdsRepr(addrof(snapshot), i) && wfSnapHolds(addrof(snapshot))
 //@   assert@call proto.Marshal#0 : config: snapshot.Config == config && cfgRepr(config, addrof(i.Config)) && cfgTextOK(config)
 //@   assert@call proto.Marshal#0 : config-top: snapshot.LastProcessed != nil && snapshot.LastProcessed.Id == i.lastProcessed.Id && snapshot.LastProcessed.Reply == i.lastProcessed.Reply && snapshot.LastIncludedIndex == lastIncludedIndex
@@ -1231,3 +1266,8 @@ package ircserver
 //@   requires locks-held: i.sessionsMu.writerSem == 1 && i.sessionsMu != i.ConfigMu
 //@   ensures locks-same: i.sessionsMu == old(i.sessionsMu) && i.ConfigMu == old(i.ConfigMu)
 //@   loopinv locks-same: i.sessionsMu == old(i.sessionsMu) && i.ConfigMu == old(i.ConfigMu)
+// the two halves proved for the writer are the relation proved for the reader
+//@ func lemma_sets_halves
+//@   opt params = p *pb.Snapshot_Session, s *Session
+//@   requires setsSound(p, s) && setsComplete(p, s) && s.Channels != nil && s.invitedTo != nil
+//@   ensures chansRepr(p, s)
